@@ -94,9 +94,14 @@ def run_case(case):
             a = r.choice([Fr(1, 2), Fr(2), Fr(3), Fr(3, 2)])
             b = r.choice([Fr(1), Fr(-1), Fr(1, 2), Fr(-3)])
             m2 = copy.deepcopy(mj)
+            wrapped = case.get("seed", 0) % 2 == 1
+            out["hist"][f"affine_as_decorator={wrapped}"] = 1
             for f in m2["functions"]:
                 if f["name"] == "utility":
-                    f["body"] = ["add", ["mul", N(a), f["body"]], N(b)]
+                    if wrapped:
+                        f["affine_wrap"] = [str(a), str(b)]      # see dsl.build_model: functools.wraps decorator around the old utility
+                    else:
+                        f["body"] = ["add", ["mul", N(a), f["body"]], N(b)]
             V2 = solve(m2, P)
             for t in range(T):
                 geo = sum(P["beta"] ** k for k in range(T - t))
